@@ -5,6 +5,7 @@ import (
 	"fmt"
 	"os"
 	"path/filepath"
+	"regexp"
 	"runtime"
 	"sort"
 	"strings"
@@ -14,6 +15,7 @@ import (
 
 	"github.com/go-critic/go-critic/linter"
 
+	"verif/mc/internal/evidence"
 	"verif/mc/internal/harness"
 	"verif/mc/internal/progenum"
 )
@@ -56,6 +58,26 @@ func (s *runStats) fam(f string, ran bool) {
 
 var fakeOnce sync.Once
 
+// fakeDyn holds fake packages registered at run time (path -> source).
+var fakeDyn sync.Map
+
+func registerFake(path, src string) { fakeDyn.Store(path, src) }
+
+var fakeImportRE = regexp.MustCompile(`"(fake/ns/[^"]+)"`)
+
+// fakeSources returns the registered fake packages imported by files (for replay artefacts).
+func fakeSources(files []harness.File) map[string]string {
+	out := map[string]string{}
+	for _, f := range files {
+		for _, m := range fakeImportRE.FindAllStringSubmatch(f.Src, -1) {
+			if src, ok := fakeDyn.Load(m[1]); ok {
+				out[m[1]] = src.(string)
+			}
+		}
+	}
+	return out
+}
+
 func installFakeResolver() {
 	fakeOnce.Do(func() {
 		sigs := map[string]progenum.Sig{}
@@ -63,6 +85,9 @@ func installFakeResolver() {
 			sigs[s.ID] = s
 		}
 		harness.FakeResolver = func(path string) (string, bool) {
+			if src, ok := fakeDyn.Load(path); ok {
+				return src.(string), true
+			}
 			parts := strings.Split(path, "/") // fake/<sig>/<Fn>/<pkg>
 			if len(parts) != 4 {
 				return "", false
@@ -165,6 +190,26 @@ func runCorpus(gen func(emit func(progenum.Prog)), opts runOpts, handle func(*ca
 	}
 	wg.Wait()
 	return st
+}
+
+// enableUserRules configures the dynamic-rules checker of every set built afterwards in this process with the
+// filter-kind fixture (one rule group per kind of DSL filter on broad patterns). Parameter values are
+// process-global registry state, so this is called once, before any set is constructed.
+func enableUserRules(files ...string) {
+	if len(files) == 0 {
+		files = []string{"filters.go"}
+	}
+	for i, f := range files {
+		files[i] = filepath.Join(evidence.Root, "fixtures", "rules", f)
+	}
+	infos := harness.Infos([]string{"ruleguard"})
+	if len(infos) != 1 {
+		fmt.Fprintln(os.Stderr, "no ruleguard checker registered (broken check)")
+		os.Exit(2)
+	}
+	p := infos[0].Params
+	p["rules"].Value = strings.Join(files, ",")
+	p["failOn"].Value = "all"
 }
 
 func fatalChecker(frame string) string {
@@ -276,10 +321,12 @@ type replayCase struct {
 		Checker string            `json:"checker"`
 		Meta    map[string]string `json:"meta"`
 		ID      string            `json:"id"`
+		Fakes   map[string]string `json:"fake_packages"`
 	} `json:"case"`
 	Path    string            `json:"path"`
 	Files   map[string]string `json:"files"`
 	Checker string            `json:"checker"`
+	Fakes   map[string]string `json:"fake_packages"`
 }
 
 func loadReplayProg(file string) (*progenum.Prog, string, error) {
@@ -290,6 +337,12 @@ func loadReplayProg(file string) (*progenum.Prog, string, error) {
 	var rc replayCase
 	if err := json.Unmarshal(data, &rc); err != nil {
 		return nil, "", err
+	}
+	for k, v := range rc.Case.Fakes {
+		registerFake(k, v)
+	}
+	for k, v := range rc.Fakes {
+		registerFake(k, v)
 	}
 	files, path, checker := rc.Case.Files, rc.Case.Path, rc.Case.Checker
 	if len(files) == 0 {
